@@ -57,6 +57,9 @@ structure State where
   high     : Node                      -- HighQC
   view     : Int                       -- the pacemaker's current view
   lastVote : Int                       -- saftyrules.lastVoteRound
+  genesis  : Nat                       -- id of qcTree.Genesis (a justify naming it is "the first justify": not checked)
+  rootV    : Int                       -- view of qcTree.Root
+  rootPV   : Int                       -- parent view recorded in qcTree.Root
 deriving Repr
 
 inductive Ret where
@@ -65,7 +68,7 @@ deriving Repr, DecidableEq
 
 def rootNode : Node := ⟨0, 0, 0⟩
 
-def init (self : Nat) : State := ⟨self, [0], [rootNode], [], rootNode, 0, 0⟩
+def init (self : Nat) : State := ⟨self, [0], [rootNode], [], rootNode, 0, 0, 0, 0, 0⟩
 
 def findNode (nodes : List Node) (id : Nat) : Option Node := nodes.find? (fun nd => nd.id == id)
 
@@ -124,16 +127,17 @@ def handleVote (vals : Int → List Nat) (s : State) (m : VoteMsg) : State × Re
           let r := collectVote (vals m.view).length s m.id m.view e nd
           (r.1, .ok, r.2)
 
-/-- The justify part of `handleReceivedProposal`: the first justify (naming the root) is not checked; a
+/-- The justify part of `handleReceivedProposal`: the first justify (naming the genesis of the instance, which
+is the root of the tree unless the node was restarted on a longer ledger) is not checked; a
 justify that names a local proposal must declare that proposal's view; then `CheckProposal` against the
 validator set of that view. -/
 def justifyOk (vals : Int → List Nat) (s : State) (p : PropMsg) : Bool :=
-  if p.parent == 0 then true
+  if p.parent == s.genesis then true
   else if (match lookup s p.parent with
       | some nd => nd.view != p.pview                           -- the justify lies about the view of a local proposal
       | none => false) then false
   else if p.view < s.lastVote - 3 then false                    -- CheckProposal: TooLowProposalView
-  else if (lookup s p.parent).isNone && (p.view ≤ 0 || p.view > 6) then false   -- EmptyParentNode
+  else if (lookup s p.parent).isNone && (p.view ≤ s.rootPV || p.view > s.rootV + 6) then false   -- EmptyParentNode
   else decide (checkProposal (vals p.pview) p.just = .accept)
 
 /-- `qcTree.updateQcStatus(node)`: store the node, then `updateHighQC(parent)` -/
@@ -170,7 +174,7 @@ def cert (s : State) : Nat × List Entry := (s.high.id, (logOf s.log s.high.id).
 votes stored for HighQC; nothing for the root (first proposal); `none` = `JustifyVotesEmpty`, no proposal
 is made -/
 def nextJustify (s : State) : Option (Nat × List Entry) :=
-  if s.high.id == 0 then some (0, [])
+  if s.high.id == s.genesis then some (s.high.id, [])
   else (logOf s.log s.high.id).map (fun es => (s.high.id, es))
 
 /-! ### histories -/
@@ -199,6 +203,57 @@ def firstSigs (id : Nat) : List VoteMsg → List Entry
     match m.sigs with
     | e :: _ => if m.id == id then e :: firstSigs id ms else firstSigs id ms
     | [] => firstSigs id ms
+
+/-! ### a collector restarted on a ledger
+
+`NewXpoaConsensus` / `NewTdposConsensus` (the same code in both plugins) on a ledger that already holds the
+blocks `0..tip`, for an instance whose StartHeight is `start` (`start - 1 ≤ tip`): `InitQCTree` rebuilds the
+pending tree from the last ledger blocks, the pacemaker is set from the tip, and - in the restart state, i.e.
+when the root of the rebuilt tree is not the genesis block `start - 1` of the instance - the signatures of the
+justify certificates stored in the last three ledger blocks are loaded into the vote log (`Smr.LoadVotes`),
+each under the id its certificate certifies: the block's PREDECESSOR.  `localProposal` holds the root only, so
+votes for the rebuilt nodes are dropped until their proposal message arrives again; the ledger state of the
+new Smr is 0.
+
+Ids: the root of the rebuilt tree is id 0 (as after `init`); the ledger block of height `h` has id `h - r`
+for `h ≥ r` and `100 + h` below, `r` = height of the root block.  Views are block heights.  `just b` = the
+signature entries of the justify stored in block `b` (blocks at or below `start` carry none). -/
+
+/-- height of the ledger block `InitQCTree` makes the root of the rebuilt tree -/
+def rootHeight (start tip : Nat) : Nat :=
+  if tip ≤ start then start - 1 else if tip < 3 then 0 else tip - 3
+
+/-- proposal id of the ledger block of height `h` in a tree whose root is the block of height `r` -/
+def relId (r h : Nat) : Nat := if r ≤ h then h - r else 100 + h
+
+/-- the restart state proper: the root of the rebuilt tree is not the genesis of the instance -/
+def restarted (start tip : Nat) : Bool := rootHeight start tip != start - 1
+
+/-- `smr.LoadVotes(b.GetPreHash(), GetJustifySigns(b))` for the ledger block of height `b`: the signatures are
+stored for the block's PREDECESSOR (paired here with its height); nothing is stored for an empty list, and
+blocks at or below StartHeight carry no signatures -/
+def loadOne (start : Nat) (just : Nat → List Entry) (b : Nat) : List (Nat × List Entry) :=
+  if start < b ∧ (just b).isEmpty = false then [(b - 1, just b)] else []
+
+/-- the certificates the constructor loads in the restart state: those stored in blocks `tip`, `tip-1`, `tip-2` -/
+def loadedCerts (start tip : Nat) (just : Nat → List Entry) : List (Nat × List Entry) :=
+  if restarted start tip then loadOne start just tip ++ loadOne start just (tip - 1) ++ loadOne start just (tip - 2)
+  else []
+
+def restart (self start tip : Nat) (just : Nat → List Entry) : State :=
+  let r := rootHeight start tip
+  let node : Nat → Node := fun i => ⟨i, ((r + i : Nat) : Int), i - 1⟩
+  let highId := if tip ≤ start then 0 else if tip < 3 then 1 else 2
+  { self := self
+    known := [0]
+    nodes := (List.range (tip + 1 - r)).map node
+    log := (loadedCerts start tip just).map (fun c => (relId r c.1, c.2))
+    high := node highId
+    view := if restarted start tip then (tip : Int) - 1 else (start : Int)
+    lastVote := 0
+    genesis := relId r (start - 1)
+    rootV := (r : Int)
+    rootPV := if tip ≤ start ∨ r = 0 then 0 else (r : Int) - 1 }
 
 /-! ### the handler as found (before the three repairs) -/
 
@@ -230,9 +285,9 @@ def handleVoteAsFound (vals : Int → List Nat) (s : State) (m : VoteMsg) : Stat
 /-- the justify part as found: checked against the validator set of the view the justify DECLARES,
 whatever the view of the local proposal it names -/
 def justifyOkAsFound (vals : Int → List Nat) (s : State) (p : PropMsg) : Bool :=
-  if p.parent == 0 then true
+  if p.parent == s.genesis then true
   else if p.view < s.lastVote - 3 then false
-  else if (lookup s p.parent).isNone && (p.view ≤ 0 || p.view > 6) then false
+  else if (lookup s p.parent).isNone && (p.view ≤ s.rootPV || p.view > s.rootV + 6) then false
   else decide (checkProposal (vals p.pview) p.just = .accept)
 
 def handlePropAsFound (vals : Int → List Nat) (s : State) (p : PropMsg) : State :=
